@@ -3,6 +3,7 @@ package main
 import (
 	"crypto/sha256"
 	"encoding/hex"
+	"encoding/json"
 	"fmt"
 	"io"
 	"io/fs"
@@ -11,6 +12,7 @@ import (
 	"path"
 	"path/filepath"
 	"sort"
+	"strconv"
 	"strings"
 	"syscall"
 	"time"
@@ -33,6 +35,30 @@ type entry struct {
 	Target  string `json:"target,omitempty"`
 	SameAs  string `json:"same_as,omitempty"` // regular file with the content and mode of another entry
 	nameCls string
+}
+
+// MarshalJSON renders an entry readably in witnesses: type as a letter, mode
+// in octal the Unix way, names that are not valid UTF-8 quoted.
+func (e entry) MarshalJSON() ([]byte, error) {
+	safe := func(s string) string {
+		if utf8.ValidString(s) {
+			return s
+		}
+		return strconv.QuoteToASCII(s)
+	}
+	m := map[string]any{"rel": safe(e.Rel), "type": string(rune(e.Type))}
+	if e.Type != 'l' {
+		m["mode"] = fmt.Sprintf("%04o", unixMode(os.FileMode(e.Mode)))
+	} else {
+		m["target"] = safe(e.Target)
+	}
+	if e.Type == 'f' {
+		m["size"], m["fill"], m["seed"] = e.Size, e.Fill, fmt.Sprint(e.Seed)
+		if e.SameAs != "" {
+			m["same_as"] = safe(e.SameAs)
+		}
+	}
+	return json.Marshal(m)
 }
 
 type tree struct {
@@ -290,8 +316,6 @@ func genDirTree(rng *rand.Rand, o treeOpts) *tree {
 			}
 		}
 		// the lexical target must stay inside the tree
-		clean := path.Clean("/" + parent + "/" + target)
-		_ = clean // path.Clean of a rooted path cannot climb above "/"; check with a marker instead
 		if escapes(parent, target) {
 			target = path.Base(rel) + "-dangling"
 		}
